@@ -269,4 +269,770 @@ theorem linearEmb_per_cell (dims : List Nat) (weights : T3 R) (biases : Mat R) (
 
 end
 
+
+/-! ## prefix sums: `cumsum`, embedding offsets, MET offsets -/
+
+theorem cumsum_length (xs : List Nat) : (cumsum xs).length = xs.length := by
+  induction xs with
+  | nil => rfl
+  | cons x xs ih => simp [cumsum, ih]
+
+theorem cumsum_getElem? (xs : List Nat) (i : Nat) :
+    (cumsum xs)[i]? = if i < xs.length then some (xs.take (i + 1)).sum else none := by
+  induction xs generalizing i with
+  | nil => simp [cumsum]
+  | cons x xs ih =>
+    cases i with
+    | zero => simp [cumsum]
+    | succ i =>
+      simp only [cumsum, List.getElem?_cons_succ, List.getElem?_map, ih, List.length_cons]
+      by_cases h : i < xs.length
+      · simp [h, List.take_succ_cons]; omega
+      · simp [h]
+
+theorem sum_take_le (xs : List Nat) (i : Nat) : (xs.take i).sum ≤ xs.sum := by
+  induction xs generalizing i with
+  | nil => simp
+  | cons x xs ih =>
+    cases i with
+    | zero => simp
+    | succ i => simp [List.take_succ_cons]; exact ih i
+
+theorem sum_take_succ (xs : List Nat) (i : Nat) (h : i < xs.length) :
+    (xs.take (i + 1)).sum = (xs.take i).sum + xs[i] := by
+  induction xs generalizing i with
+  | nil => simp at h
+  | cons x xs ih =>
+    cases i with
+    | zero => simp
+    | succ i =>
+      simp only [List.length_cons, Nat.add_lt_add_iff_right] at h
+      simp only [List.take_succ_cons, List.sum_cons, List.getElem_cons_succ, ih i h]
+      omega
+
+theorem sum_take_mono (xs : List Nat) {i j : Nat} (h : i ≤ j) : (xs.take i).sum ≤ (xs.take j).sum := by
+  have : xs.take i = (xs.take j).take i := by rw [List.take_take]; congr 1; omega
+  rw [this]
+  exact sum_take_le _ _
+
+theorem embOffsets_getElem? (ns : List Nat) (c : Nat) (h : c < ns.length) :
+    (embOffsets ns)[c]? = some (Int.ofNat (ns.take c).sum) := by
+  unfold embOffsets
+  simp only [List.getElem?_map, cumsum_getElem?]
+  have hl : (0 :: ns).dropLast.length = ns.length := by simp
+  rw [hl]
+  simp only [h, if_true, Option.map_some]
+  congr 2
+  have : ((0 :: ns).dropLast).take (c + 1) = 0 :: ns.take c := by
+    rw [List.dropLast_eq_take, List.take_take]
+    simp only [List.length_cons, Nat.add_sub_cancel]
+    have : min (c + 1) ns.length = c + 1 := by omega
+    rw [this, List.take_succ_cons]
+  rw [this]
+  simp
+
+theorem embStarts_getElem? (dims : List Nat) (c : Nat) :
+    (embStarts dims)[c]? = if c < dims.length then some (dims.take c).sum else none := by
+  induction dims generalizing c with
+  | nil => simp [embStarts]
+  | cons d ds ih =>
+    cases c with
+    | zero => simp [embStarts]
+    | succ c =>
+      simp only [embStarts, List.getElem?_cons_succ, List.getElem?_map, ih, List.length_cons]
+      by_cases h : c < ds.length
+      · simp [h, List.take_succ_cons]; omega
+      · simp [h]
+
+theorem metOffsets_getElem? (dims : List Nat) (c : Nat) :
+    (metOffsets dims)[c]? = if c ≤ dims.length then some (dims.take c).sum else none := by
+  unfold metOffsets
+  cases c with
+  | zero => simp
+  | succ c =>
+    simp only [List.getElem?_cons_succ, cumsum_getElem?]
+    by_cases h : c < dims.length
+    · simp [h]; omega
+    · simp [h]; omega
+
+
+/-! ## domain lemmas -/
+
+theorem foldl_min_le (ys : List Int) (a : Int) : ys.foldl min a ≤ a ∧ ∀ y ∈ ys, ys.foldl min a ≤ y := by
+  induction ys generalizing a with
+  | nil => simp
+  | cons z zs ih =>
+    simp only [List.foldl_cons, List.mem_cons]
+    have h := ih (min a z)
+    refine ⟨by have := h.1; omega, ?_⟩
+    intro y hy
+    rcases hy with rfl | hy
+    · have := h.1; omega
+    · exact h.2 y hy
+
+theorem yearMin_le (ys : List Int) : ∀ y ∈ ys, yearMin ys ≤ y := by
+  cases ys with
+  | nil => simp
+  | cons z zs =>
+    intro y hy
+    simp only [yearMin]
+    have h := foldl_min_le zs z
+    rcases List.mem_cons.mp hy with rfl | hy
+    · exact h.1
+    · exact h.2 y hy
+
+theorem bagInRange_of_bounds {R} (table : Mat R) (n : Nat) (bag : List Int) (ht : table.length = n + 1)
+    (hb : ∀ t ∈ bag, -1 ≤ t ∧ t < n) : bagInRange table bag = true := by
+  unfold bagInRange
+  simp only [List.all_eq_true, Bool.and_eq_true, decide_eq_true_eq]
+  intro t ht'
+  have := hb t ht'
+  omega
+
+theorem bucketize_le {R} (S : SOps R) (bs : List R) (x : R) : bucketize S bs x ≤ bs.length := by
+  unfold bucketize
+  split
+  · exact Nat.le_refl _
+  · exact List.countP_le_length
+
+theorem tsDomainOk_of_ranges (minYear y mo d wd h mi s : Int)
+    (hy : minYear ≤ y) (h1 : 0 ≤ mo ∧ mo ≤ 11) (h2 : 0 ≤ d ∧ d ≤ 30) (h3 : 0 ≤ wd ∧ wd ≤ 6)
+    (h4 : 0 ≤ h ∧ h ≤ 23) (h5 : 0 ≤ mi ∧ mi ≤ 59) (h6 : 0 ≤ s ∧ s ≤ 59) :
+    tsDomainOk cyclicConst [y, mo, d, wd, h, mi, s] minYear = true := by
+  simp [tsDomainOk, cyclicConst, hy]
+  omega
+
+
+
+/-! ## embedding index arithmetic -/
+
+theorem embIndex_in_range (ns : List Nat) (c : Nat) (hc : c < ns.length) (off v : Int)
+    (hoff : (embOffsets ns)[c]? = some off) (h0 : 0 ≤ v) (h1 : v < ns[c]) :
+    1 ≤ embIndex off v ∧ embIndex off v ≤ ns.sum := by
+  rw [embOffsets_getElem? ns c hc] at hoff
+  injection hoff with hoff
+  have h2 := sum_take_succ ns c hc
+  have h3 := sum_take_le ns (c + 1)
+  have : ¬ v < 0 := by omega
+  simp only [embIndex, this, if_false]
+  subst hoff
+  simp only [Int.ofNat_eq_natCast]
+  omega
+
+theorem embIndex_lt_of_col_lt (ns : List Nat) (c c' : Nat) (hcc : c < c') (hc' : c' < ns.length) (off off' v v' : Int)
+    (hoff : (embOffsets ns)[c]? = some off) (hoff' : (embOffsets ns)[c']? = some off')
+    (h0 : 0 ≤ v) (h1 : v < ns[c]'(by omega)) (h0' : 0 ≤ v') :
+    embIndex off v < embIndex off' v' := by
+  have hc : c < ns.length := by omega
+  rw [embOffsets_getElem? ns c hc] at hoff
+  rw [embOffsets_getElem? ns c' hc'] at hoff'
+  injection hoff with hoff
+  injection hoff' with hoff'
+  have h2 := sum_take_succ ns c hc
+  have h3 : (ns.take (c + 1)).sum ≤ (ns.take c').sum := sum_take_mono ns (by omega)
+  have n1 : ¬ v < 0 := by omega
+  have n2 : ¬ v' < 0 := by omega
+  simp only [embIndex, n1, n2, if_false]
+  subst hoff hoff'
+  simp only [Int.ofNat_eq_natCast]
+  omega
+
+theorem embIndex_injective (ns : List Nat) (c c' : Nat) (hc : c < ns.length) (hc' : c' < ns.length)
+    (off off' v v' : Int)
+    (hoff : (embOffsets ns)[c]? = some off) (hoff' : (embOffsets ns)[c']? = some off')
+    (h0 : 0 ≤ v) (h1 : v < ns[c]) (h0' : 0 ≤ v') (h1' : v' < ns[c'])
+    (heq : embIndex off v = embIndex off' v') : c = c' ∧ v = v' := by
+  rcases Nat.lt_trichotomy c c' with h | h | h
+  · have := embIndex_lt_of_col_lt ns c c' h hc' off off' v v' hoff hoff' h0 h1 h0'
+    omega
+  · subst h
+    rw [hoff] at hoff'
+    injection hoff' with hoff'
+    subst hoff'
+    have n1 : ¬ v < 0 := by omega
+    have n2 : ¬ v' < 0 := by omega
+    simp only [embIndex, n1, n2, if_false] at heq
+    exact ⟨rfl, by omega⟩
+  · have := embIndex_lt_of_col_lt ns c' c h hc off' off v' v hoff' hoff h0' h1' h0
+    omega
+
+
+/-! ## shapes -/
+
+def Rect {α : Type} (x : Mat α) (B C : Nat) : Prop := x.length = B ∧ ∀ row ∈ x, row.length = C
+
+def T3WF {α : Type} (x : T3 α) (B C ch : Nat) : Prop :=
+  x.length = B ∧ ∀ row ∈ x, row.length = C ∧ ∀ v ∈ row, v.length = ch
+
+theorem mem_zipWith {α β γ : Type} {f : α → β → γ} {l1 : List α} {l2 : List β} {z : γ}
+    (h : z ∈ List.zipWith f l1 l2) : ∃ a ∈ l1, ∃ b ∈ l2, z = f a b := by
+  induction l1 generalizing l2 with
+  | nil => simp at h
+  | cons a as ih =>
+    cases l2 with
+    | nil => simp at h
+    | cons b bs =>
+      simp only [List.zipWith_cons_cons, List.mem_cons] at h
+      rcases h with rfl | h
+      · exact ⟨a, List.mem_cons_self .., b, List.mem_cons_self .., rfl⟩
+      · obtain ⟨a', ha, b', hb, hz⟩ := ih h
+        exact ⟨a', List.mem_cons_of_mem _ ha, b', List.mem_cons_of_mem _ hb, hz⟩
+
+theorem rect_bcast2 {α β γ : Type} (f : α → β → γ) (x : Mat α) (v : List β) (B C : Nat)
+    (h : Rect x B C) (hv : v.length = C) : Rect (bcast2 f x v) B C := by
+  refine ⟨by simp [bcast2, h.1], ?_⟩
+  intro row hrow
+  simp only [bcast2, List.mem_map] at hrow
+  obtain ⟨r0, hr0, rfl⟩ := hrow
+  simp [h.2 r0 hr0, hv]
+
+theorem rect_map2 {α β : Type} (f : α → β) (x : Mat α) (B C : Nat) (h : Rect x B C) : Rect (map2 f x) B C := by
+  refine ⟨by simp [map2, h.1], ?_⟩
+  intro row hrow
+  simp only [map2, List.mem_map] at hrow
+  obtain ⟨r0, hr0, rfl⟩ := hrow
+  simp [h.2 r0 hr0]
+
+theorem rect_zip2 {α β γ : Type} (f : α → β → γ) (x : Mat α) (y : Mat β) (B C : Nat)
+    (hx : Rect x B C) (hy : Rect y B C) : Rect (zip2 f x y) B C := by
+  refine ⟨by simp [zip2, hx.1, hy.1], ?_⟩
+  intro row hrow
+  obtain ⟨a, ha, b, hb, rfl⟩ := mem_zipWith hrow
+  simp [hx.2 a ha, hy.2 b hb]
+
+theorem rect_rows_range {ρ β : Type} (rows : List ρ) (C : Nat) (h : Nat → ρ → β) :
+    Rect (rows.map fun row => (List.range C).map fun i => h i row) rows.length C := by
+  refine ⟨by simp, ?_⟩
+  intro row hrow
+  simp only [List.mem_map] at hrow
+  obtain ⟨r0, _, rfl⟩ := hrow
+  simp
+
+/-- every entry of a broadcast result satisfies `P` when every `f a b` does -/
+theorem all_bcast2 {α β γ : Type} (P : γ → Prop) (f : α → β → γ) (x : Mat α) (v : List β)
+    (h : ∀ a, ∀ b ∈ v, P (f a b)) : ∀ row ∈ bcast2 f x v, ∀ z ∈ row, P z := by
+  intro row hrow z hz
+  simp only [bcast2, List.mem_map] at hrow
+  obtain ⟨r0, _, rfl⟩ := hrow
+  obtain ⟨a, _, b, hb, rfl⟩ := mem_zipWith hz
+  exact h a b hb
+
+theorem all_map2 {α β : Type} (P : β → Prop) (f : α → β) (x : Mat α) (h : ∀ a, P (f a)) :
+    ∀ row ∈ map2 f x, ∀ z ∈ row, P z := by
+  intro row hrow z hz
+  simp only [map2, List.mem_map] at hrow
+  obtain ⟨r0, _, rfl⟩ := hrow
+  simp only [List.mem_map] at hz
+  obtain ⟨a, _, rfl⟩ := hz
+  exact h a
+
+theorem all_zip2 {α β γ : Type} (P : γ → Prop) (f : α → β → γ) (x : Mat α) (y : Mat β)
+    (h : ∀ a b, P (f a b)) : ∀ row ∈ zip2 f x y, ∀ z ∈ row, P z := by
+  intro row hrow z hz
+  obtain ⟨a, _, b, _, rfl⟩ := mem_zipWith hrow
+  obtain ⟨a', _, b', _, rfl⟩ := mem_zipWith hz
+  exact h a' b'
+
+theorem t3wf_of {α : Type} (x : T3 α) (B C ch : Nat) (h : Rect x B C)
+    (hc : ∀ row ∈ x, ∀ v ∈ row, v.length = ch) : T3WF x B C ch :=
+  ⟨h.1, fun row hr => ⟨h.2 row hr, hc row hr⟩⟩
+
+section
+variable {R : Type} (S : SOps R)
+
+theorem vecMat_length (x : List R) (W : Mat R) (ch : Nat) : (vecMat S x W ch).length = ch := by simp [vecMat]
+theorem matT3_length (x : Mat R) (W : T3 R) (ch : Nat) : (matT3 S x W ch).length = ch := by simp [matT3]
+
+theorem rect_normalize (n : Norm R) (feat : Mat R) (B C : Nat) (h : Rect feat B C)
+    (hm : n.mean.length = C) (hs : n.std.length = C) : Rect (normalize S n feat) B C :=
+  rect_bcast2 _ _ _ B C (rect_bcast2 _ _ _ B C h hm) hs
+
+theorem mem_cell {α : Type} {x : Mat α} {row : List α} {v : α} (hr : row ∈ x) (hv : v ∈ row) :
+    ∃ r c, cell x r c = some v := by
+  obtain ⟨r, hr'⟩ := List.mem_iff_getElem?.mp hr
+  obtain ⟨c, hc'⟩ := List.mem_iff_getElem?.mp hv
+  exact ⟨r, c, by simp [cell, hr', hc']⟩
+
+theorem mem_of_getElem? {α : Type} {l : List α} {i : Nat} {a : α} (h : l[i]? = some a) : a ∈ l :=
+  List.mem_iff_getElem?.mpr ⟨i, h⟩
+
+theorem cellLinear_length (m s : R) (w b : List R) (x : R) (ch : Nat) (hw : w.length = ch) (hb : b.length = ch) :
+    (cellLinear S m s w b x).length = ch := by simp [cellLinear, hw, hb]
+
+theorem linear_shape (n : Norm R) (w b : Mat R) (feat : Mat R) (B C ch : Nat) (h : Rect feat B C)
+    (hm : n.mean.length = C) (hs : n.std.length = C) (hw : w.length = C) (hb : b.length = C)
+    (hwc : ∀ v ∈ w, v.length = ch) (hbc : ∀ v ∈ b, v.length = ch) :
+    T3WF (linearEncode S n w b feat) B C ch := by
+  apply t3wf_of
+  · unfold linearEncode
+    exact rect_bcast2 _ _ _ B C (rect_bcast2 _ _ _ B C (rect_normalize S n feat B C h hm hs) hw) hb
+  · intro row hrow v hv
+    obtain ⟨r, c, hc⟩ := mem_cell hrow hv
+    rw [linear_per_cell] at hc
+    simp only [Option.bind_eq_some_iff, Option.map_eq_some_iff] at hc
+    obtain ⟨x, _, m, _, s, _, wc, hwc', bc, hbc', rfl⟩ := hc
+    exact cellLinear_length S m s wc bc x ch (hwc wc (mem_of_getElem? hwc')) (hbc bc (mem_of_getElem? hbc'))
+
+theorem all_bcast2' {α β γ : Type} (Q : α → Prop) (P : γ → Prop) (f : α → β → γ) (x : Mat α) (v : List β)
+    (hx : ∀ row ∈ x, ∀ a ∈ row, Q a) (h : ∀ a, Q a → ∀ b ∈ v, P (f a b)) :
+    ∀ row ∈ bcast2 f x v, ∀ z ∈ row, P z := by
+  intro row hrow z hz
+  simp only [bcast2, List.mem_map] at hrow
+  obtain ⟨r0, hr0, rfl⟩ := hrow
+  obtain ⟨a, ha, b, hb, rfl⟩ := mem_zipWith hz
+  exact h a (hx r0 hr0 a ha) b hb
+
+theorem all_map2' {α β : Type} (Q : α → Prop) (P : β → Prop) (f : α → β) (x : Mat α)
+    (hx : ∀ row ∈ x, ∀ a ∈ row, Q a) (h : ∀ a, Q a → P (f a)) : ∀ row ∈ map2 f x, ∀ z ∈ row, P z := by
+  intro row hrow z hz
+  simp only [map2, List.mem_map] at hrow
+  obtain ⟨r0, hr0, rfl⟩ := hrow
+  simp only [List.mem_map] at hz
+  obtain ⟨a, ha, rfl⟩ := hz
+  exact h a (hx r0 hr0 a ha)
+
+theorem all_zip2' {α β γ : Type} (Q : β → Prop) (P : γ → Prop) (f : α → β → γ) (x : Mat α) (y : Mat β)
+    (hy : ∀ row ∈ y, ∀ b ∈ row, Q b) (h : ∀ a b, Q b → P (f a b)) : ∀ row ∈ zip2 f x y, ∀ z ∈ row, P z := by
+  intro row hrow z hz
+  obtain ⟨ra, _, rb, hrb, rfl⟩ := mem_zipWith hrow
+  obtain ⟨a', _, b', hb', rfl⟩ := mem_zipWith hz
+  exact h a' b' (hy rb hrb b' hb')
+
+theorem all_rows_range {ρ β : Type} (P : β → Prop) (rows : List ρ) (C : Nat) (h : Nat → ρ → β)
+    (hp : ∀ i row, P (h i row)) : ∀ row' ∈ (rows.map fun row => (List.range C).map fun i => h i row), ∀ z ∈ row', P z := by
+  intro row' hrow z hz
+  simp only [List.mem_map] at hrow
+  obtain ⟨r0, _, rfl⟩ := hrow
+  simp only [List.mem_map] at hz
+  obtain ⟨i, _, rfl⟩ := hz
+  exact hp i r0
+
+theorem stack_shape (n : Norm R) (ch : Nat) (feat : Mat R) (B C : Nat) (h : Rect feat B C)
+    (hm : n.mean.length = C) (hs : n.std.length = C) : T3WF (stackEncode S n ch feat) B C ch := by
+  unfold stackEncode
+  apply t3wf_of
+  · exact rect_map2 _ _ B C (rect_normalize S n feat B C h hm hs)
+  · exact all_map2 (fun z : List R => z.length = ch) _ _ (by simp)
+
+theorem periodic_shape (n : Norm R) (li : Mat R) (lo : T3 R) (ch : Nat) (feat : Mat R) (B C : Nat) (h : Rect feat B C)
+    (hm : n.mean.length = C) (hs : n.std.length = C) (hli : li.length = C) (hlo : lo.length = C) :
+    T3WF (periodicEncode S n li lo ch feat) B C ch := by
+  unfold periodicEncode
+  apply t3wf_of
+  · exact rect_bcast2 _ _ _ B C (rect_map2 _ _ B C (rect_bcast2 _ _ _ B C (rect_normalize S n feat B C h hm hs) hli)) hlo
+  · exact all_bcast2 (fun z : List R => z.length = ch) _ _ _ (by intro a b _; exact vecMat_length S _ _ _)
+
+theorem excel_shape (n : Norm R) (w1 w2 b1 b2 : Mat R) (feat : Mat R) (B C ch : Nat) (h : Rect feat B C)
+    (hm : n.mean.length = C) (hs : n.std.length = C)
+    (h1 : w1.length = C) (h2 : w2.length = C) (h3 : b1.length = C) (h4 : b2.length = C)
+    (c1 : ∀ v ∈ w1, v.length = ch) (c2 : ∀ v ∈ w2, v.length = ch) (c3 : ∀ v ∈ b1, v.length = ch)
+    (c4 : ∀ v ∈ b2, v.length = ch) : T3WF (excelEncode S n w1 w2 b1 b2 feat) B C ch := by
+  apply t3wf_of
+  · unfold excelEncode
+    have hn := rect_normalize S n feat B C h hm hs
+    exact rect_zip2 _ _ _ B C (rect_bcast2 _ _ _ B C (rect_bcast2 _ _ _ B C hn h1) h3)
+      (rect_bcast2 _ _ _ B C (rect_bcast2 _ _ _ B C hn h2) h4)
+  · intro row hrow v hv
+    obtain ⟨r, c, hc⟩ := mem_cell hrow hv
+    rw [excel_per_cell] at hc
+    simp only [Option.bind_eq_some_iff, Option.map_eq_some_iff] at hc
+    obtain ⟨x, _, m, _, s, _, u1, hu1, u2, hu2, v1, hv1, v2, hv2, rfl⟩ := hc
+    simp [cellExcel, c1 u1 (mem_of_getElem? hu1), c2 u2 (mem_of_getElem? hu2), c3 v1 (mem_of_getElem? hv1),
+          c4 v2 (mem_of_getElem? hv2)]
+
+theorem bucket_shape (q : Mat R) (w : T3 R) (b : Mat R) (ch C : Nat) (feat : Mat R) (B : Nat) (hB : feat.length = B)
+    (hw : w.length = C) (hb : b.length = C) (hbc : ∀ v ∈ b, v.length = ch) :
+    T3WF (bucketEncode S q w b ch C feat) B C ch := by
+  unfold bucketEncode
+  simp only [List.map_map]
+  have hst := stackDim1_rows feat C (fun i (row : List R) => bucketRow S (q.getD i []) (row.getD i S.zero))
+  simp only [Function.comp_def] at hst ⊢
+  rw [hst]
+  apply t3wf_of
+  · have h0 := rect_rows_range feat C (fun i (row : List R) => bucketRow S (q.getD i []) (row.getD i S.zero))
+    rw [hB] at h0
+    exact rect_bcast2 _ _ _ B C (rect_bcast2 _ _ _ B C h0 hw) hb
+  · apply all_bcast2' (fun z : List R => z.length = ch) (fun z : List R => z.length = ch)
+    · exact all_bcast2 (fun z : List R => z.length = ch) _ _ _ (by intro a b _; exact vecMat_length S _ _ _)
+    · intro a ha bj hbj
+      simp [ha, hbc bj hbj]
+
+theorem embedding_shape (off : List Int) (t : Mat R) (feat : Mat Int) (y : T3 R) (B C ch : Nat)
+    (h : Rect feat B C) (hoff : off.length = C) (ht : ∀ v ∈ t, v.length = ch)
+    (he : embeddingEncode off t feat = some y) : T3WF y B C ch := by
+  unfold embeddingEncode at he
+  simp only at he
+  split at he
+  · rename_i hall
+    injection he with he
+    subst he
+    have hidx : Rect (zip2 (fun (m : Bool) (i : Int) => if m then 0 else i) (map2 (fun v => decide (v < 0)) feat)
+        (map2 (· + 1) (bcast2 (· + ·) feat off))) B C :=
+      rect_zip2 _ _ _ B C (rect_map2 _ _ B C h) (rect_map2 _ _ B C (rect_bcast2 _ _ _ B C h hoff))
+    apply t3wf_of
+    · exact rect_map2 _ _ B C hidx
+    · apply all_map2' (fun i : Int => 0 ≤ i ∧ i < t.length) (fun z : List R => z.length = ch)
+      · intro row hrow a ha
+        simp only [List.all_eq_true, Bool.and_eq_true, decide_eq_true_eq] at hall
+        exact hall row hrow a ha
+      · intro i hi
+        have hlt : i.toNat < t.length := by omega
+        have : t.getD i.toNat [] = t[i.toNat] := by simp [List.getD, List.getElem?_eq_getElem hlt]
+        rw [this]
+        exact ht _ (List.getElem_mem hlt)
+  · cases he
+
+theorem bag_shape (mode : BagMode) (tables : T3 R) (ch : Nat) (feat : Mat (List Int)) (y : T3 R) (B C : Nat)
+    (hB : feat.length = B) (ht : tables.length = C) (he : bagEncode S mode tables ch feat = some y) :
+    T3WF y B C ch := by
+  unfold bagEncode at he
+  split at he
+  · injection he with he
+    subst he
+    simp only [List.map_map]
+    have hst := stackDim1_rows feat tables.length
+      (fun i (row : List (List Int)) => bagReduce S mode (tables.getD i []) ch (row.getD i []))
+    simp only [Function.comp_def] at hst ⊢
+    rw [hst]
+    apply t3wf_of
+    · have h0 := rect_rows_range feat tables.length
+        (fun i (row : List (List Int)) => bagReduce S mode (tables.getD i []) ch (row.getD i []))
+      rw [hB, ht] at h0
+      rw [ht]
+      exact h0
+    · exact all_rows_range (fun z : List R => z.length = ch) _ _ _ (by intro i row; simp [bagReduce])
+  · cases he
+
+theorem timestamp_shape (minYear maxValues : List Int) (outSize : Nat) (weight : List (T3 R)) (bias : Mat R)
+    (ch : Nat) (feat : Mat (List Int)) (y : T3 R) (B C : Nat) (h : Rect feat B C)
+    (hy : minYear.length = C) (hw : weight.length = C) (hb : bias.length = C) (hbc : ∀ v ∈ bias, v.length = ch)
+    (he : timestampEncode S minYear maxValues outSize weight bias ch feat = some y) : T3WF y B C ch := by
+  unfold timestampEncode at he
+  simp only at he
+  split at he
+  · injection he with he
+    subst he
+    have hmask := rect_map2 tsMissing feat B C h
+    have hF := rect_map2 (fun ts : List Int => ts.map fun t => S.round32 (S.ofInt t)) feat B C h
+    apply t3wf_of
+    · refine rect_zip2 _ _ _ B C hmask (rect_bcast2 _ _ _ B C (rect_bcast2 _ _ _ B C (rect_zip2 _ _ _ B C ?_ ?_) hw) hb)
+      · exact rect_zip2 _ _ _ B C hmask (rect_bcast2 _ _ _ B C hF hy)
+      · exact rect_zip2 _ _ _ B C hmask (rect_map2 _ _ B C hF)
+    · apply all_zip2' (fun z : List R => z.length = ch) (fun z : List R => z.length = ch)
+      · apply all_bcast2' (fun z : List R => z.length = ch) (fun z : List R => z.length = ch)
+        · exact all_bcast2 (fun z : List R => z.length = ch) _ _ _ (by intro a b _; exact matT3_length S _ _ _)
+        · intro a ha bj hbj
+          simp [ha, hbc bj hbj]
+      · intro m v hv
+        by_cases hm : m <;> simp [hm, hv]
+  · cases he
+
+theorem linearEmb_shape (dims : List Nat) (weights : T3 R) (biases : Mat R) (ch : Nat) (values : Mat R) (y : T3 R)
+    (B C : Nat) (hB : values.length = B) (hd : dims.length = C) (hb : biases.length = C)
+    (hbc : ∀ v ∈ biases, v.length = ch)
+    (he : linearEmbEncode S dims weights biases ch values = some y) : T3WF y B C ch := by
+  unfold linearEmbEncode at he
+  split at he
+  · injection he with he
+    subst he
+    subst hd
+    have hst := stackDim1_rows values dims.length
+      (fun i (row : List R) => vecMat S ((row.drop ((embStarts dims).getD i 0)).take (dims.getD i 0)) (weights.getD i []) ch)
+    rw [hst]
+    apply t3wf_of
+    · have h0 := rect_rows_range values dims.length
+        (fun i (row : List R) => vecMat S ((row.drop ((embStarts dims).getD i 0)).take (dims.getD i 0)) (weights.getD i []) ch)
+      rw [hB] at h0
+      exact rect_bcast2 _ _ _ B _ h0 hb
+    · apply all_bcast2' (fun z : List R => z.length = ch) (fun z : List R => z.length = ch)
+      · exact all_rows_range (fun z : List R => z.length = ch) _ _ _ (by intro i row; exact vecMat_length S _ _ _)
+      · intro a ha bj hbj
+        simp [ha, hbc bj hbj]
+  · cases he
+end
+
+
+/-! ## well-formedness and the shape of `forward` -/
+
+section
+variable {R : Type} (S : SOps R)
+
+def Params.WF (p : Params R) (C ch : Nat) : Prop :=
+  match p with
+  | .linear n w b => n.mean.length = C ∧ n.std.length = C ∧ w.length = C ∧ b.length = C ∧
+      (∀ v ∈ w, v.length = ch) ∧ (∀ v ∈ b, v.length = ch)
+  | .stack n => n.mean.length = C ∧ n.std.length = C
+  | .bucket _ w b => w.length = C ∧ b.length = C ∧ ∀ v ∈ b, v.length = ch
+  | .periodic n li lo => n.mean.length = C ∧ n.std.length = C ∧ li.length = C ∧ lo.length = C
+  | .excel n w1 w2 b1 b2 => n.mean.length = C ∧ n.std.length = C ∧ w1.length = C ∧ w2.length = C ∧
+      b1.length = C ∧ b2.length = C ∧ (∀ v ∈ w1, v.length = ch) ∧ (∀ v ∈ w2, v.length = ch) ∧
+      (∀ v ∈ b1, v.length = ch) ∧ (∀ v ∈ b2, v.length = ch)
+  | .embedding off t => off.length = C ∧ ∀ v ∈ t, v.length = ch
+  | .bag _ ts => ts.length = C
+  | .timestamp ys _ _ w b => ys.length = C ∧ w.length = C ∧ b.length = C ∧ ∀ v ∈ b, v.length = ch
+  | .linearEmb ds _ bs => ds.length = C ∧ bs.length = C ∧ ∀ v ∈ bs, v.length = ch
+
+def Feat.WF (f : Feat R) (B C : Nat) : Prop :=
+  match f with
+  | .num x => Rect x B C
+  | .cat x => Rect x B C
+  | .bags x => Rect x B C
+  | .time x => Rect x B C
+  | .emb _ vals => vals.length = B
+
+def Fill.WF (f : Option (Fill R)) (C : Nat) : Prop :=
+  match f with
+  | none => True
+  | some (.num v) => v.length = C
+  | some (.int v) => v.length = C
+  | some (.time v) => v.length = C
+
+def Post.WF (p : Post R) (ch : Nat) : Prop :=
+  match p with
+  | .layerNorm g b => g.length = ch ∧ b.length = ch
+  | _ => True
+
+structure Encoder.WF (e : Encoder R) (C : Nat) : Prop where
+  params : Params.WF e.params C e.ch
+  fill : Fill.WF e.fill C
+  post : Post.WF e.post e.ch
+
+theorem encode_shape (p : Params R) (ch C B : Nat) (feat : Feat R) (y : T3 R)
+    (hp : Params.WF p C ch) (hf : Feat.WF feat B C) (h : encodeForward S p ch C feat = some y) :
+    T3WF y B C ch := by
+  cases p <;> cases feat <;> simp only [encodeForward] at h <;> try (cases h; done)
+  all_goals simp only [Params.WF, Feat.WF] at hp hf
+  · injection h with h; subst h
+    obtain ⟨a1, a2, a3, a4, a5, a6⟩ := hp
+    exact linear_shape S _ _ _ _ B C ch hf a1 a2 a3 a4 a5 a6
+  · injection h with h; subst h
+    exact stack_shape S _ ch _ B C hf hp.1 hp.2
+  · injection h with h; subst h
+    exact bucket_shape S _ _ _ ch C _ B hf.1 hp.1 hp.2.1 hp.2.2
+  · injection h with h; subst h
+    obtain ⟨a1, a2, a3, a4⟩ := hp
+    exact periodic_shape S _ _ _ ch _ B C hf a1 a2 a3 a4
+  · injection h with h; subst h
+    obtain ⟨a1, a2, a3, a4, a5, a6, a7, a8, a9, a10⟩ := hp
+    exact excel_shape S _ _ _ _ _ _ B C ch hf a1 a2 a3 a4 a5 a6 a7 a8 a9 a10
+  · exact embedding_shape _ _ _ y B C ch hf hp.1 hp.2 h
+  · exact bag_shape S _ _ ch _ y B C hf.1 hp h
+  · obtain ⟨a1, a2, a3, a4⟩ := hp
+    exact timestamp_shape S _ _ _ _ _ ch _ y B C hf a1 a2 a3 a4 h
+  · obtain ⟨a1, a2, a3⟩ := hp
+    exact linearEmb_shape S _ _ _ ch _ y B C hf a1 a2 a3 h
+
+theorem naForward_wf (fill : Option (Fill R)) (feat feat' : Feat R) (B C : Nat)
+    (hfill : Fill.WF fill C) (hf : Feat.WF feat B C) (h : naForward S fill feat = some feat') :
+    Feat.WF feat' B C := by
+  cases fill with
+  | none => simp only [naForward] at h; injection h with h; subst h; exact hf
+  | some fl =>
+    cases fl <;> cases feat <;> simp only [naForward] at h <;> try (cases h; done)
+    all_goals (injection h with h; subst h; simp only [Feat.WF, Fill.WF] at hf hfill ⊢;
+               exact rect_bcast2 _ _ _ B C hf hfill)
+
+theorem t3wf_map2 {α : Type} (f : List α → List α) (x : T3 α) (B C ch : Nat)
+    (hf : ∀ v, v.length = ch → (f v).length = ch) (h : T3WF x B C ch) : T3WF (map2 f x) B C ch := by
+  have hr : Rect x B C := ⟨h.1, fun row hrow => (h.2 row hrow).1⟩
+  apply t3wf_of _ B C ch (rect_map2 f x B C hr)
+  exact all_map2' (fun v : List α => v.length = ch) (fun v : List α => v.length = ch) f x
+    (fun row hrow => (h.2 row hrow).2) hf
+
+theorem post_length (p : Post R) (ch : Nat) (hp : Post.WF p ch) (v : List R) (hv : v.length = ch) :
+    (Post.apply S p v).length = ch := by
+  cases p <;> simp only [Post.apply, Post.WF] at hp ⊢
+  · exact hv
+  · simp [hv]
+  · simp [hv]
+  · simp [layerNormVec, hv, hp.1, hp.2]
+
+/-- `StypeEncoder.forward`: the output has the shape `[rows, cols, out_channels]` for every batch size -/
+theorem forward_shape (e : Encoder R) (B C n : Nat) (feat : Feat R) (o : Out R)
+    (he : Encoder.WF e C) (hf : Feat.WF feat B C) (h : forward S e B C n feat = some o) :
+    n = C ∧ o.b = B ∧ o.c = C ∧ o.ch = e.ch ∧ T3WF o.data B C e.ch := by
+  unfold forward at h
+  split at h
+  · cases h
+  · rename_i hn
+    have hn' : n = C := by
+      simp only [bne_iff_ne, ne_eq, Decidable.not_not] at hn; exact hn.symm
+    cases h1 : naForward S e.fill feat with
+    | none => simp [h1, bind, Option.bind] at h
+    | some f1 =>
+      cases h2 : encodeForward S e.params e.ch C f1 with
+      | none => simp [h1, h2, bind, Option.bind] at h
+      | some x =>
+        simp only [h1, h2, bind, Option.bind, pure] at h
+        injection h with h
+        subst h
+        have w1 := naForward_wf S e.fill feat f1 B C he.fill hf h1
+        have w2 := encode_shape S e.params e.ch C B f1 x he.params w1 h2
+        have w3 := t3wf_map2 (fun v => v.map S.nanToNum) x B C e.ch (by intro v hv; simp [hv]) w2
+        have w4 := t3wf_map2 (Post.apply S e.post) _ B C e.ch (post_length S e.post e.ch he.post) w3
+        exact ⟨hn', rfl, rfl, rfl, w4⟩
+end
+
+
+/-! ## the stype-wise encoder -/
+
+theorem gather_forall₂ {α β : Type} (f : α → Option β) (xs : List α) (ys : List β)
+    (h : gather f xs = some ys) : List.Forall₂ (fun x y => f x = some y) xs ys := by
+  induction xs generalizing ys with
+  | nil => simp only [gather] at h; injection h with h; subst h; exact List.Forall₂.nil
+  | cons x xs ih =>
+    simp only [gather] at h
+    cases hx : f x with
+    | none => simp [hx] at h
+    | some y =>
+      cases hxs : gather f xs with
+      | none => simp [hx, hxs] at h
+      | some ys' =>
+        simp only [hx, hxs] at h
+        injection h with h
+        subst h
+        exact List.Forall₂.cons hx (ih ys' hxs)
+
+theorem forall₂_mem_right {α β : Type} {P : α → β → Prop} {xs : List α} {ys : List β}
+    (h : List.Forall₂ P xs ys) : ∀ y ∈ ys, ∃ x ∈ xs, P x y := by
+  induction h with
+  | nil => intro y hy; cases hy
+  | cons hp _ ih =>
+    intro y hy
+    rcases List.mem_cons.mp hy with rfl | hy
+    · exact ⟨_, List.mem_cons_self .., hp⟩
+    · obtain ⟨x, hx, hpx⟩ := ih y hy
+      exact ⟨x, List.mem_cons_of_mem _ hx, hpx⟩
+
+theorem forall₂_flatMap {α β γ : Type} {P : α → β → Prop} {xs : List α} {ys : List β} (f : α → List γ) (g : β → List γ)
+    (h : List.Forall₂ P xs ys) (hfg : ∀ x y, P x y → f x = g y) : xs.flatMap f = ys.flatMap g := by
+  induction h with
+  | nil => rfl
+  | cons hp _ ih => simp [List.flatMap_cons, hfg _ _ hp, ih]
+
+section
+variable {R : Type} (S : SOps R)
+
+/-- what `forward_shape` gives for one block of the stype-wise encoder -/
+def GoodPart (B ch : Nat) (p : Out R × List String) : Prop :=
+  p.1.b = B ∧ p.1.ch = ch ∧ p.1.c = p.2.length ∧ T3WF p.1.data B p.1.c ch
+
+theorem catDim1_shape (parts : List (Out R × List String)) (B ch : Nat) (x : Out R)
+    (hgood : ∀ p ∈ parts, GoodPart B ch p) (h : catDim1 (parts.map (·.1)) = some x) :
+    x.b = B ∧ x.ch = ch ∧ x.c = (parts.flatMap (·.2)).length ∧ T3WF x.data B x.c ch ∧
+    x.data = (List.range B).map fun r => parts.flatMap fun p => p.1.data.getD r [] := by
+  cases parts with
+  | nil => simp [catDim1] at h
+  | cons p0 rest =>
+    simp only [List.map_cons, catDim1] at h
+    split at h
+    · injection h with h
+      subst h
+      have g0 := hgood p0 (List.mem_cons_self ..)
+      have hc : ((p0 :: rest).map (fun p => p.1.c)).sum = ((p0 :: rest).flatMap (·.2)).length := by
+        rw [List.length_flatMap]
+        congr 1
+        apply List.map_congr_left
+        intro p hp
+        exact (hgood p hp).2.2.1
+      have hdata : ∀ r, r < B → ∀ p ∈ (p0 :: rest), (p.1.data.getD r []).length = p.1.c ∧
+          ∀ v ∈ p.1.data.getD r [], v.length = ch := by
+        intro r hr p hp
+        obtain ⟨hb, _, _, hwf⟩ := hgood p hp
+        have hlt : r < p.1.data.length := by rw [hwf.1]; exact hr
+        have : p.1.data.getD r [] = p.1.data[r] := by simp [List.getD, List.getElem?_eq_getElem hlt]
+        rw [this]
+        exact hwf.2 _ (List.getElem_mem hlt)
+      refine ⟨g0.1, g0.2.1, ?_, ?_, ?_⟩
+      · simpa [List.map_map, Function.comp_def] using hc
+      · refine ⟨by simp [g0.1], ?_⟩
+        intro row hrow
+        simp only [List.mem_map, List.mem_range] at hrow
+        obtain ⟨r, hr, rfl⟩ := hrow
+        rw [g0.1] at hr
+        refine ⟨?_, ?_⟩
+        · have hm : p0.1 :: List.map (fun x => x.1) rest = List.map (fun x => x.1) (p0 :: rest) := rfl
+          show _ = (p0.1.c :: List.map (fun x => x.c) (List.map (fun x => x.1) rest)).sum
+          have hm2 : p0.1.c :: List.map (fun x => x.c) (List.map (fun x => x.1) rest)
+              = List.map (fun x => x.1.c) (p0 :: rest) := by simp [List.map_map, Function.comp_def]
+          rw [hm, hm2, List.flatMap_map, List.length_flatMap]
+          congr 1
+          apply List.map_congr_left
+          intro p hp
+          exact (hdata r hr p hp).1
+        · intro v hv
+          have hm : p0.1 :: List.map (fun x => x.1) rest = List.map (fun x => x.1) (p0 :: rest) := rfl
+          rw [hm, List.flatMap_map] at hv
+          simp only [List.mem_flatMap] at hv
+          obtain ⟨p, hp, hvp⟩ := hv
+          exact (hdata r hr p hp).2 v hvp
+      · simp only [g0.1]
+        congr 1
+        funext r
+        have hm : p0.1 :: List.map (fun x => x.1) rest = List.map (fun x => x.1) (p0 :: rest) := rfl
+        rw [hm, List.flatMap_map]
+    · cases h
+
+theorem wisePart_good (w : Wise R) (tf : List (Group R)) (B ch : Nat) (s : Stype) (p : Out R × List String)
+    (hg : ∀ s g nm e, tf.find? (·.st == s) = some g → w.colNames.lookup s = some nm → w.encoders.lookup s = some e →
+          g.rows = B ∧ e.ch = ch ∧ Encoder.WF e g.cols ∧ Feat.WF g.feat B g.cols)
+    (h : wisePart S w tf s = some p) : GoodPart B ch p ∧ (w.colNames.lookup s).getD [] = p.2 := by
+  unfold wisePart at h
+  cases h1 : tf.find? (·.st == s) with
+  | none => simp [h1, bind, Option.bind] at h
+  | some g =>
+    cases h2 : w.colNames.lookup s with
+    | none => simp [h1, h2, bind, Option.bind] at h
+    | some nm =>
+      cases h3 : w.encoders.lookup s with
+      | none => simp [h1, h2, h3, bind, Option.bind] at h
+      | some e =>
+        cases h4 : forward S e g.rows g.cols nm.length g.feat with
+        | none => simp [h1, h2, h3, h4, bind, Option.bind] at h
+        | some o =>
+          simp only [h1, h2, h3, h4, bind, Option.bind, pure] at h
+          injection h with h
+          subst h
+          obtain ⟨hB, hch, hwf, hfeat⟩ := hg s g nm e h1 h2 h3
+          rw [hB] at h4
+          obtain ⟨a1, a2, a3, a4, a5⟩ := forward_shape S e B g.cols nm.length g.feat o hwf hfeat h4
+          refine ⟨⟨a2, by rw [a4, hch], by rw [a3, a1], ?_⟩, by simp⟩
+          rw [a3, ← hch, ← a4]
+          rw [a4]
+          exact a5
+
+/-- `StypeWiseFeatureEncoder.forward`: shape `[B, Σ group sizes, ch]`, names = the groups' names in canonical
+    stype order = the order of the tensor's column axis (names and every row are concatenations over the same
+    blocks, block by block of equal length) -/
+theorem wise_shape_and_names (w : Wise R) (tf : List (Group R)) (B ch : Nat) (x : Out R) (names : List String)
+    (hg : ∀ s g nm e, tf.find? (·.st == s) = some g → w.colNames.lookup s = some nm → w.encoders.lookup s = some e →
+          g.rows = B ∧ e.ch = ch ∧ Encoder.WF e g.cols ∧ Feat.WF g.feat B g.cols)
+    (h : wiseForward S w tf = some (x, names)) :
+    ∃ parts, gather (wisePart S w tf) (canonicalStypes tf) = some parts ∧
+      x.b = B ∧ x.ch = ch ∧ x.c = names.length ∧ T3WF x.data B x.c ch ∧
+      names = (canonicalStypes tf).flatMap (fun s => (w.colNames.lookup s).getD []) ∧
+      names = parts.flatMap (·.2) ∧
+      x.data = (List.range B).map (fun r => parts.flatMap fun p => p.1.data.getD r []) ∧
+      ∀ p ∈ parts, GoodPart B ch p := by
+  unfold wiseForward at h
+  cases hp : gather (wisePart S w tf) (canonicalStypes tf) with
+  | none => simp [hp, bind, Option.bind] at h
+  | some parts =>
+    cases hc : catDim1 (parts.map (·.1)) with
+    | none => simp [hp, hc, bind, Option.bind] at h
+    | some x' =>
+      simp only [hp, hc, bind, Option.bind, pure] at h
+      injection h with h
+      injection h with hx hn
+      subst hx hn
+      have hf2 := gather_forall₂ _ _ _ hp
+      have hgood : ∀ p ∈ parts, GoodPart B ch p := by
+        intro p hpm
+        obtain ⟨s, _, hs⟩ := forall₂_mem_right hf2 p hpm
+        exact (wisePart_good S w tf B ch s p hg hs).1
+      obtain ⟨b1, b2, b3, b4, b5⟩ := catDim1_shape parts B ch x' hgood hc
+      refine ⟨parts, rfl, b1, b2, b3, b4, ?_, rfl, b5, hgood⟩
+      exact (forall₂_flatMap _ _ hf2 (fun s p hs => (wisePart_good S w tf B ch s p hg hs).2)).symm
+end
+
 end TFVerif.Enc
